@@ -228,6 +228,8 @@ pub struct Stats {
     pub violations: Vec<Violation>,
     pub exhaustive: bool,
     pub notes: Vec<String>,
+    /// first executed case, used as a sample when no non-trivial case was recorded
+    pub fallback_sample: Option<Value>,
     biggest: usize,
 }
 
@@ -243,6 +245,10 @@ impl Stats {
     /// Record an executed case (call exactly once per case, not for shrink re-runs).
     pub fn record(&mut self, case_json: impl FnOnce() -> Value, fp: u64, size: usize, o: &Outcome) {
         self.evaluations += 1;
+        let mut case_json = Some(case_json);
+        if self.fallback_sample.is_none() && !o.nontrivial {
+            self.fallback_sample = case_json.take().map(|f| f());
+        }
         for c in &o.classes {
             *self.classes.entry((*c).to_string()).or_default() += 1;
         }
@@ -259,7 +265,9 @@ impl Stats {
                 // keep: first, and each new "largest so far" (bounded)
                 if self.samples.is_empty() || (size > self.biggest && self.samples.len() < 6) {
                     self.biggest = self.biggest.max(size);
-                    self.samples.push(case_json());
+                    if let Some(f) = case_json.take() {
+                        self.samples.push(f());
+                    }
                 }
             }
         }
@@ -289,6 +297,9 @@ impl Stats {
         }
         self.violations.extend(other.violations);
         self.notes.extend(other.notes);
+        if self.fallback_sample.is_none() {
+            self.fallback_sample = other.fallback_sample;
+        }
         self.exhaustive = self.exhaustive && other.exhaustive;
     }
 }
@@ -640,6 +651,11 @@ impl Evidence {
             }
             for s in st.samples.iter().take(3) {
                 samples.push(json!({"sub": st.name, "case": s}));
+            }
+            if st.samples.is_empty() {
+                if let Some(f) = &st.fallback_sample {
+                    samples.push(json!({"sub": st.name, "case": f, "trivial": true}));
+                }
             }
             rules.push(format!("[{}] {}", st.name, st.rule));
             for (k, v) in &st.known_hits {
